@@ -10,6 +10,52 @@ COMMON_NOTE = ("Trusted: clang-14 AST of the real TU (record layouts cross-check
                "CPython C-API / libc functions (listed in the evidence), A-PYINT, A-ALLOC, A-REFCNT, A-SEP. ")
 
 CLAIMED = {
+    'C01': dict(
+        category='proof',
+        text="b_complete_struct_or_union_lock_held is verified as three units against an ABI layout step written in bit "
+             "coordinates (specs/layout.py): ONE iteration of the field loop, for every running state and every member of "
+             "the property's class (ordinary members, named/unnamed/zero-width bit-fields of integer type, flexible "
+             "arrays, nested and anonymous aggregates, unions, packed=True / pack=N without bit-fields), leaves exactly "
+             "the first free bit, alignment and bytes-used that the ABI step gives, creates a field object whose "
+             "offset/bitshift/bitsize denote exactly the ABI bits and lie inside the aggregate, and rejects nothing of "
+             "the class; the anonymous-member loop copies inner placements shifted by the member's offset; the "
+             "prologue establishes the loop invariant and the epilogue turns the final state into sizeof/alignof. "
+             "get_alignment (backward goto under a label invariant), complete_sflags, force_lazy_struct, "
+             "detect_custom_layout and _add_field are under contract. Counter-models are exhibited by a battery of 1300+ "
+             "declarations compared with gcc.",
+        design_ref='DESIGN.md section 4 C01',
+        note=COMMON_NOTE + "T-SPEC: that the step function is gcc's rule is validated against gcc by the battery "
+             "(bounded, thorough tier and every replay), not proved. The fold over all members is the induction over the "
+             "loop-body contract (summarised loop: invariant proved at entry, restated in the body contract's pre and "
+             "post). Assumed: sizes below 2^55; integer types naturally aligned (C06); the Python side passes "
+             "sflags in {0, SF_PACKED} and a power-of-two pack (Parser.parse / finish_backend_type are not under "
+             "contract). Known finding C01-empty-aggregate: GNU size 0 is reported as 1.",
+        technique="contract-based deductive verification: loop-body contract refining a bit-coordinate ABI step, label "
+                  "invariant for a goto cycle, lemma obligations for the two's-complement form of round-up/down; cvc "
+                  "(clang AST -> z3/cvc5)",
+    ),
+    'C20': dict(
+        category='proof',
+        text="ffi.new under contract: allocate_owning_object / allocate_with_allocator give a zero-filled data area of "
+             "the requested size; direct_newp (three cases: pointer to a plain item, pointer to struct/union, array) "
+             "sizes the data area as the property says (item, item*2 for char, array, length*itemsize with a sound "
+             "overflow test, or the size computed by the sizing pass), finds it all zero when the single conversion of "
+             "the initializer starts, and makes exactly the convert_from_object call (address, type, value) that "
+             "cdata_ass_sub makes for p[0] = init -- so both leave the same bytes; one iteration of the list loop "
+             "of convert_struct_from_object hands the i-th initializer to the next field not marked "
+             "ignore-in-constructor (union: first member), one iteration of the dict loop to the field stored under "
+             "the key; convert_vfield_from_object / add_varsize_length make the required size cover offset + "
+             "itemsize*length (overflow test proved with a Lean lemma) and never shrink it; the stored length is what "
+             "direct_sizeof_cdata reports for p[0]; the 'ends in a flexible array' mark is propagated from members "
+             "exactly.",
+        design_ref='DESIGN.md section 4 C20',
+        note=COMMON_NOTE + "convert_from_object is a recording (trace) contract here: what it writes is C03/C04/C15's "
+             "subject. Scope: default allocator; flexible arrays with items that are not zero-sized; initializers that "
+             "are lists/tuples/bytes/ints/dicts of those; recursive sizing of nested structs that themselves end in a "
+             "flexible array is not covered (their marking is). A-ALLOC below 2^46 bytes, A-STACK.",
+        technique="contract-based deductive verification: allocation/zero-fill contracts, loop-body contracts, ghost call "
+                  "trace, Lean-proved overflow lemma used as instance; cvc (clang AST -> z3/cvc5)",
+    ),
     'C02': dict(
         category='proof',
         text="Every obligation generated from the current source of the bit-field reader/writer, the raw integer "
@@ -326,6 +372,19 @@ CLAIMED = {
 }
 
 NOT_APPLICABLE = {
+    'C07': "relational property between two parsers over an infinite grammar; one of them is pycparser, a third-party "
+           "table-driven LALR parser that cannot be put under contract, so there is no verified denotation of the Python "
+           "side to relate parse_c_type.c to (DESIGN.md section 5)",
+    'C28': "interleavings and faults inside CPython start-up (CAS spin lock, lazily created mutex, function-pointer "
+           "switch) with a liveness clause; the code is a header pasted into generated modules; contracts on sequential "
+           "functions do not decide schedule/fault properties (DESIGN.md section 5)",
+    'C31': "invariance of regex-based preprocessing under insertions at every token boundary needs the leftmost-match "
+           "semantics of Python's re (lazy quantifiers, MULTILINE|DOTALL) that neither SMT string solver decides, plus "
+           "pycparser's lexer (DESIGN.md section 5)",
+    'C33': "equivalence of the programs generated by three code generators after compilation: contracts on cffi's own "
+           "functions do not reach the behaviour of generated-and-compiled code (DESIGN.md section 5)",
+    'C36': "thread-state lifetime across foreign threads, pthread key destructors and CPython internals: a "
+           "schedule/history property whose state lives inside CPython (DESIGN.md section 5)",
 }
 
 PENDING_REASON = "machinery for this property not finished yet (plan: DESIGN.md section 4)"
